@@ -41,9 +41,12 @@ def num_close(text, want, float_format):
     if printed.strip() == text.strip():
         return True
     # tolerate a tie in the last printed digit
-    m = re.search(r'\.(\d+)([eEf])', float_format)
+    m = re.search(r'\.(\d+)([eEfgG])', float_format)
     dec = int(m.group(1)) if m else 6
-    if 'e' in float_format.lower():
+    if m and m.group(2) in 'gG':
+        ex = math.floor(math.log10(abs(want))) if want != 0 else 0
+        ulp = 10.0 ** (ex - max(dec, 1) + 1)
+    elif 'e' in float_format.lower():
         ex = math.floor(math.log10(abs(want))) if want != 0 else 0
         ulp = 10.0 ** (ex - dec)
     else:
@@ -63,7 +66,7 @@ class WorldC06(World):
               'read-absent', 'fault-did-not-fire', 'clock-jump-before-write', 'same-model-written-twice',
               'dimensionless-activation', 'gibbs-activation', 'eight-conditions', 'custom-delimiters',
               'mole-fraction-missing-species', 'EA-gas', 'EA-surface', 'reactants-gas-products-surface',
-              'equal-but-distinct-site-objects', 'EA-pressure-series-at-one-T', 'sticking-coefficient-zero')
+              'equal-but-distinct-site-objects', 'barrier-anchored-in-species', 'EA-pressure-series-at-one-T', 'sticking-coefficient-zero')
     REAL = ('pmutt.io.chemkin writers and read_reactions', 'pmutt.reaction.ChemkinReaction / Reactions', 'pmutt.chemkin.CatSite',
             'pmutt.empirical.nasa.Nasa', 'pmutt.io._get_file_timestamp')
     SIMULATED = ('disk: SimFS (open/write/close errors, ENOSPC after k characters, crash at four points, read errors)',
@@ -176,7 +179,7 @@ class WorldC06(World):
         sw = self.ctx.swarm
         o = {'newline': rng.choice(['\n', '\n', '\r\n']), 'to_file': rng.random() < 0.75}
         if sw['custom_fmt'] and rng.random() < 0.5:
-            o.update({'float_format': rng.choice([' .3E', ' .5E', '.2E', ' .4e']), 'stoich_format': rng.choice(['.0f', '.1f']),
+            o.update({'float_format': rng.choice([' .3E', ' .5E', '.2E', ' .4e', '.0E', ' .3G', ' .6G']), 'stoich_format': rng.choice(['.0f', '.1f']),
                       'column_delimiter': rng.choice(['  ', ' ', '    ']), 'species_delimiter': rng.choice(['+', ' + ']),
                       'reaction_delimiter': rng.choice(['=', '<=>', ' = '])})
         if kind in ('write_gas', 'write_surf'):
@@ -289,7 +292,32 @@ class WorldC06(World):
             meth = getattr(rxn, o['act_method_name'])
         from pmutt import _force_pass_arguments
         Ea = _force_pass_arguments(meth, T=T, units=act_unit)
+        self._anchor_barrier(twin, r, meth.__name__, float(Ea), {'T': T}, act_unit)
         return float(A), float(r['beta']), float(Ea)
+
+    def _anchor_barrier(self, twin, r, meth_name, got, cond, unit):
+        """"The value the model gives" is anchored in the species: for the enthalpy and Gibbs barriers of a Chemkin
+        reaction it is max(0, X_ts - X_reactants, X_products - X_reactants), X = sum of nu_i x_i over the species' own
+        getters at the requested conditions (the energy barrier E adds a molecularity term and is left to the reaction)."""
+        q = {'get_H_act': 'HoRT', 'get_HoRT_act': 'HoRT', 'get_G_act': 'GoRT', 'get_GoRT_act': 'GoRT'}.get(meth_name)
+        if q is None:
+            return
+        sp = twin['species']
+
+        def state(members):
+            return sum(nu * float(getattr(sp[n], 'get_' + q)(**cond)) for n, nu in members)
+        xr, xp = state(r['reactants']), state(r['products'])
+        cands = [0.0, xp - xr]
+        if r['ts']:
+            cands.append(state([[r['ts'], 1]]) - xr)
+        want = max(cands)
+        if 'oRT' not in meth_name:
+            from pmutt import constants as c
+            want = want * c.R('%s/K' % unit) * cond['T']
+        self.ctx.probe('barrier-anchored-in-species')
+        if abs(got - want) > 1e-9 * max(1.0, abs(want), abs(xr), abs(xp)) * (1.0 if 'oRT' in meth_name else 1e4):
+            raise Violation('number-equals-model', 'reaction %s: %s at %r gives %r; from its species, max(0, TS - reactants, '
+                            'products - reactants) = %r' % (equation(r, '+', '=', '.0f'), meth_name, cond, got, want))
 
     # ------------------------------------------------------------------ text oracles
     @staticmethod
@@ -470,6 +498,7 @@ class WorldC06(World):
             meth = getattr(rxn, o['ads_act_method'] if r['is_adsorption'] else o['act_method_name'])
             for txt, cond in zip(parts[-n:], o['conditions']):
                 val = float(_force_pass_arguments(meth, **dict(cond)))
+                self._anchor_barrier(twin, r, meth.__name__, val, dict(cond), None)
                 if not num_close(txt, val, ff):
                     raise Violation('number-equals-model', '%s: %r at %r printed as %s, the model gives %r' % (
                         what, eq, cond, txt, val))
